@@ -4,8 +4,8 @@ import (
 	"fmt"
 	"go/ast"
 	"go/token"
-	"regexp"
 	"pigeonverif/internal/variants"
+	"regexp"
 	"sort"
 	"strings"
 
@@ -687,14 +687,51 @@ func c01f(c *Ctx, a *absVariant) {
 	okOpt, okDef, okApply := false, false, false
 	if ep != nil {
 		param := ep.Type.Params.List[0].Names[0].Name
-		var as []string
+		// on the normalised paths of the option's closure: what p.entrypoint holds when the closure returns is the
+		// given name, or the first rule's name exactly when the given name is empty
+		var lit *ast.FuncLit
 		ast.Inspect(ep.Body, func(n ast.Node) bool {
-			if x, ok := n.(*ast.AssignStmt); ok && nospace(x.Lhs[0]) == "p.entrypoint" {
-				as = append(as, nospace(x.Rhs[0])+" under ["+strings.Join(guardsOf(ep.Body, x.Pos()), ";")+"]")
+			if fl, ok := n.(*ast.FuncLit); ok && lit == nil {
+				lit = fl
 			}
 			return true
 		})
-		okOpt = len(as) == 2 && as[0] == param+" under []" && (as[1] == "g.rules[0].name under ["+param+`==""]` || as[1] == "g.rules[0].name under [len("+param+")==0]")
+		if lit != nil {
+			pp := "p"
+			if len(lit.Type.Params.List) == 1 && len(lit.Type.Params.List[0].Names) == 1 {
+				pp = lit.Type.Params.List[0].Names[0].Name
+			}
+			paths := c.vnorm(a.V).normBlock(ep, lit.Body.List)
+			okOpt = len(paths) > 0
+			nEmpty, nGiven := 0, 0
+			for _, p := range paths {
+				v, at := lastSet(p, pp+".entrypoint")
+				if at < 0 {
+					okOpt = false
+					continue
+				}
+				switch {
+				case p.holds("len(" + param + ")==0"):
+					nEmpty++
+					if v != "g.rules[0].name" {
+						okOpt = false
+					}
+				case p.holds("len(" + param + ")>0"):
+					nGiven++
+					if v != param {
+						okOpt = false
+					}
+				default:
+					okOpt = false
+				}
+				for _, f := range p.facts() {
+					if f != "len("+param+")==0" && f != "len("+param+")>0" {
+						okOpt = false // something else decides which rule is the start rule
+					}
+				}
+			}
+			okOpt = okOpt && nEmpty > 0 && nGiven > 0
+		}
 	}
 	if np != nil {
 		ast.Inspect(np.Body, func(n ast.Node) bool {
@@ -827,4 +864,3 @@ func c01gRangeImage(c *Ctx, rule string) {
 		fmt.Sprintf("%d emissions of range end points, none a case mapping of a single end point", nRanges),
 		fmt.Sprintf("emissions=%d %s: the lower-case image of a range is not the interval between its lower-cased end points ([A-z]i does not match '_', [Z-a]i matches nothing)", nRanges, strings.Join(uniq(bad), "; ")))
 }
-
